@@ -666,7 +666,12 @@ def run_limit_zero(ctx: Ctx, name: str, data: dict) -> None:
     """Replays the Lean witness `limit_zero_starves` on the real watcher (an observation about kopf, see ASSUMPTIONS):
     with worker_limit=0 nothing is processed and the shutdown never completes. The trace up to the hang must be
     accepted by the model; any OTHER behaviour (e.g. kopf starts rejecting the setting) is reported as a note."""
-    log = run_one(data["scenario"], "fifo")
+    import gc
+    import warnings
+    with warnings.catch_warnings():
+        warnings.simplefilter("ignore", RuntimeWarning)     # the never-spawned worker coroutine is never awaited
+        log = run_one(data["scenario"], "fifo")
+        gc.collect()
     ctx.count("source", "observation")
     ctx.case(key=f"limit0:{log['outcome']}", nontrivial=False)
     names = [l[0][0] for l in log["labels"]]
